@@ -43,6 +43,8 @@ pub struct Rec<'s, 'a> {
     pub f: &'s Scripted<'a>,
     pub thetas: Vec<f64>,
     pub steps: Vec<StepRec>,
+    /// callback index at which the state is rewritten (to the same zeros) and ModifiedSolution returned
+    pub modify_at: Option<usize>,
 }
 impl<'s, 'a> SolOut for Rec<'s, 'a> {
     fn solout(&mut self, xold: f64, x: &mut f64, y: &mut [f64], ip: Option<&StepInterpolant<'_>>) -> ControlFlag {
@@ -54,7 +56,14 @@ impl<'s, 'a> SolOut for Rec<'s, 'a> {
                 dense.push(yi);
             }
         }
+        let idx = self.steps.len();
         self.steps.push(StepRec { xold, x: *x, y: y.to_vec(), calls_at_entry: self.f.calls.borrow().len(), dense });
+        if self.modify_at == Some(idx) {
+            for v in y.iter_mut() {
+                *v = 0.0;
+            }
+            return ControlFlag::ModifiedSolution;
+        }
         ControlFlag::Continue
     }
 }
@@ -87,14 +96,22 @@ pub struct Tableau {
 /// step number `step` (1 = first step) of a run with x0, step size h (|h| a power of two),
 /// and optionally a clipped final step (`xend_clip`: xend = x0 + clip*h with clip < 1 on step 1).
 pub fn extract(m: Method, x0: f64, h: f64, step: usize, clip: Option<f64>, thetas: &[f64]) -> Result<Tableau, String> {
+    extract_ex(m, x0, h, step, clip, thetas, false)
+}
+
+/// As `extract`; with `modify` the callback that precedes step `step` (the initial callback for step 1) rewrites the
+/// state (all zeros, as it was) and returns ModifiedSolution: the solver must then evaluate the derivative afresh at the
+/// start of the step — one extra call, answered with e_0 — and use THAT value as k1 of the step.
+pub fn extract_ex(m: Method, x0: f64, h: f64, step: usize, clip: Option<f64>, thetas: &[f64], modify: bool) -> Result<Tableau, String> {
     let (per, fsal) = calls_per_step(m);
     if per == 0 {
         return Err("not an explicit Runge-Kutta method".into());
     }
     let s = per + 1; // stage 0 = k1
-    let first_call_of_step = 1 + (step - 1) * per; // index of the first call made inside step `step`
+    let shift = if modify { 1 } else { 0 };
+    let first_call_of_step = 1 + (step - 1) * per + shift; // index of the first call made inside step `step`
     // index of the call that provides k1 for step `step`
-    let k1_call = if step == 1 { 0 } else { (step - 2) * per + fsal };
+    let k1_call = if modify { first_call_of_step - 1 } else if step == 1 { 0 } else { (step - 2) * per + fsal };
     let n = s;
     let answers = move |j: usize, d: &mut [f64]| {
         if j == k1_call {
@@ -108,7 +125,7 @@ pub fn extract(m: Method, x0: f64, h: f64, step: usize, clip: Option<f64>, theta
     let xend = if clip.is_some() { x0 + h_eff } else { x0 + h * step as f64 };
     let y0 = vec![0.0; n];
     let lo = LowOpts { first_step: Some(h), max_step: Some(h.abs()), dense: true, ..Default::default() };
-    let mut rec = Rec { f: &f, thetas: thetas.to_vec(), steps: Vec::new() };
+    let mut rec = Rec { f: &f, thetas: thetas.to_vec(), steps: Vec::new(), modify_at: if modify { Some(step - 1) } else { None } };
     let res = run_low(m, &f, x0, &y0, xend, &Tol::S(0.0), &Tol::S(1e300), &lo, &mut rec);
     if let Err(e) = res {
         return Err(format!("solver returned {}", e));
